@@ -459,7 +459,7 @@ WIDTHS = (72, 104, 136, 168, 232, 296)     # engine width ladder: EngineBound (v
 
 def run_batch(cls, prop, specs, tag=""):
     """custom job: one harness per template, results merged"""
-    known = load_known(os.path.join(ROOT, "known_findings.json"), prop)
+    known = load_known(os.environ.get("VERIF_KNOWN") or os.path.join(ROOT, "known_findings.json"), prop)
     res = dict(harness=f"batch{tag}[{len(specs)} templates]", violations=[], known_hits=[], inconclusive=[],
                errors=[], funcs=[], samples=[], stats={}, solver={}, outcomes={}, exhaustive=True, nontrivial=0,
                wall_s=0.0, **{k: 0 for k in _SUM})
